@@ -21,7 +21,8 @@ MANIFEST = {
 }
 RULE = ("correspondence: every (len f <= L, args in -1..len+1, BUF) tuple for the five functions, final bytes + exception class + final "
         "position compared between mutagen._util on BytesIO (and a real file for a sample) and the extracted generated model; "
-        "direct oracle: slice-based reference on the real functions (patched small buffers and the real 2**20 buffer). "
+        "direct oracle: slice-based reference on the real functions (patched small buffers, the real 2**20 buffer, explicit buffer sizes ABOVE 2**20, "
+        "and contents with NUL runs / constant bytes / repeated blocks so that byte values cannot matter). "
         "non-trivial = the call moved at least one byte or was rejected; distinct by (function, file length, arguments, BUF)")
 
 
